@@ -48,6 +48,17 @@ func showSnap(s *interpreter.State) string {
 		showStack(s.DataStack), showStack(s.AltStack))
 }
 
+// probeAccessors: set by the C19 executor — every callback then also uses the State's own accessors (a debugger that
+// prints "the current opcode" does exactly that); a panic inside them takes the whole execution down
+var probeAccessors bool
+
+func useAccessors(s *interpreter.State) {
+	if probeAccessors {
+		_ = s.Opcode()
+		_ = s.RemainingScript()
+	}
+}
+
 // scribble overwrites every byte of every stack copy handed to a debugger callback
 func scribble(s *interpreter.State) {
 	for _, st := range [][][]byte{s.DataStack, s.AltStack, s.ElseStack, s.SavedFirstStack} {
@@ -91,6 +102,7 @@ func implExec(flags uint64, unlock, lock []byte, txd string, idx int, sats uint6
 	if mode > 0 {
 		d := debug.NewDebugger()
 		d.AttachAfterStep(func(s *interpreter.State) {
+			useAccessors(s)
 			res.trace = append(res.trace, showSnap(s))
 			res.events = append(res.events, "S")
 			if mode == 2 {
@@ -99,6 +111,7 @@ func implExec(flags uint64, unlock, lock []byte, txd string, idx int, sats uint6
 		})
 		ev := func(tag string) func(*interpreter.State) {
 			return func(s *interpreter.State) {
+				useAccessors(s)
 				res.events = append(res.events, tag)
 				if mode == 2 {
 					scribble(s)
@@ -183,6 +196,8 @@ func init() {
 	// IX.dbg <flags> <unlock> <lock>: the same program with no debugger, a recording and a scribbling one (C19)
 	executors["IX.dbg"] = func(a []string) string {
 		u, l := unE(a[1]), unE(a[2])
+		probeAccessors = true
+		defer func() { probeAccessors = false }()
 		r0 := implExec(mustU(a[0], 32), append([]byte{}, u...), append([]byte{}, l...), "-", 0, 0, 0)
 		r1 := implExec(mustU(a[0], 32), append([]byte{}, u...), append([]byte{}, l...), "-", 0, 0, 1)
 		r2 := implExec(mustU(a[0], 32), append([]byte{}, u...), append([]byte{}, l...), "-", 0, 0, 2)
